@@ -160,7 +160,26 @@ def native_part(repo, rep):
             rhs = ex(n["inner"][1])
             if rhs[0] == "call" and show(rhs[1]) == "PyArray_DATA" and rhs[2] and rhs[2][0] == ("var", inarr):
                 inptr = ex(n["inner"][0])
-    if inptr is None or inptr[0] != "var":
+    if inptr is None:
+        # no named pointer: PyArray_DATA(specin) is used where it is needed.  Every occurrence must be an argument of partition() (first
+        # position) - never the target of a store, never handed to anything else
+        uses = 0
+        for n in wrap.walk(wrap.func("specpart")):
+            if n.get("kind") == "CallExpr" and show(ex(n)[1]) == "PyArray_DATA" and ex(n)[2] and ex(n)[2][0] == ("var", inarr):
+                uses += 1
+                p_ = n.get("_p")
+                while p_ is not None and p_.get("kind") in ("ImplicitCastExpr", "CStyleCastExpr", "ParenExpr"):
+                    p_ = p_.get("_p")
+                okuse = p_ is not None and p_.get("kind") == "CallExpr" and show(ex(p_)[1]) == "partition" and \
+                    any(x is n for x in wrap.walk(p_["inner"][1]))
+                if not okuse:
+                    rep.fail("R-C17-2", WRAP_C, wrap.line(n), "specpart", wrap.text(p_ if p_ is not None else n)[:120],
+                             "the input array's data pointer is used outside the first argument of partition()")
+        if not uses:
+            raise AnalysisError("wrapper: PyArray_DATA(specin) not found (idiom changed)")
+        rep.ok("R-C17-2", WRAP_C, f"PyArray_DATA({inarr}) x{uses}", "only passed as the input buffer of partition()")
+        return
+    if inptr[0] != "var":
         raise AnalysisError("wrapper: assignment of PyArray_DATA(specin) not found (idiom changed)")
     for n in wrap.walk(wrap.func("specpart")):
         if n.get("kind") in ("BinaryOperator", "CompoundAssignOperator") and n.get("opcode", "").endswith("=") \
